@@ -18,5 +18,7 @@ import Proofs.GenPurity
 #print axioms Xsel.C13.run_ops_frame
 #print axioms Xsel.C13.run_ops_value
 #print axioms Xsel.C13.run_ops_valid
+#print axioms Xsel.C13.handler_walk_frame
+#print axioms Xsel.C13.order_of_alternatives_irrelevant
 #print axioms Xsel.Gen.no_shared_writes
 #print axioms Xsel.Gen.inplace_ops_on_fresh
